@@ -47,8 +47,8 @@ PROBE = {
 
 def sizes(tier):
     if tier == "quick":
-        return dict(walks=20, depth=48, shards=12, max_hops=3,
-                    table=dict(MaxLen=4, BaseMaxLen=3, FullLen=2, Stride=5, BatchSize=8, Route2Every=4), variants=2)
+        return dict(walks=16, depth=46, shards=12, max_hops=3,
+                    table=dict(MaxLen=4, BaseMaxLen=3, FullLen=2, Stride=7, BatchSize=8, Route2Every=4), variants=2)
     return dict(walks=240, depth=70, shards=16, max_hops=4,
                 table=dict(MaxLen=5, BaseMaxLen=4, FullLen=3, Stride=4, BatchSize=10, Route2Every=3), variants=3)
 
@@ -183,6 +183,14 @@ def drive_table(binary, tabledir, workdir, tag, seed, variants, rows=None):
     return tp
 
 
+MONFAIL_RE = re.compile(r'<<\s*"MONFAIL",\s*"([^"]*)",\s*(\d+),\s*<<\s*"([^"]*)",\s*"([^"]*)"\s*>>\s*>>')
+
+
+def monfails(out):
+    """TLC's pretty printer breaks long tuples over several lines: parse MONFAIL tuples whitespace-tolerantly."""
+    return [(m.group(1), int(m.group(2)), m.group(3), m.group(4)) for m in MONFAIL_RE.finditer(out)]
+
+
 def validate(trace_files, workdir, tag):
     d = vk.scratch_spec(SPEC_DIR)
     fails, steps = [], 0
@@ -196,8 +204,8 @@ def validate(trace_files, workdir, tag):
         fl, consumed, out = vk.tlc_trace(d, "Trace_ICS20", cfg)
         if consumed != n:
             raise vk.Infra("trace validation consumed %d of %d lines (%s)\n%s" % (consumed, n, tf, out[-2000:]))
-        return fl, n
-    for fl, n in vk.pmap(one, trace_files, 6):
+        return monfails(out), n
+    for fl, n in vk.pmap(one, trace_files, 12):
         fails.extend(fl)
         steps += n
     shutil.rmtree(d, ignore_errors=True)
@@ -214,7 +222,7 @@ def validate_table(tf):
         raise vk.Infra("table validation consumed %d of %d rows\n%s" % (consumed, n, out[-2000:]))
     m = re.search(r'<<"ACCEPTED", (\d+)>>', out)
     shutil.rmtree(d, ignore_errors=True)
-    return fl, n, int(m.group(1)) if m else 0
+    return monfails(out), n, int(m.group(1)) if m else 0
 
 
 # ------------------------------------------------------------------------------------------------ coverage
@@ -348,7 +356,7 @@ def run_family(tier, seed, binary=None):
     sanity = [f for f in fails + tfails if f[2] == "X"]
     if sanity:
         raise vk.Infra("harness sanity monitors failed (infrastructure): %s" % sanity[:5])
-    conf = collections.Counter(f[3] for f in fails + tfails if f[2] == "CONF")
+    conf = collections.Counter(f[0].split("-")[0] + ":" + f[3] for f in fails + tfails if f[2] == "CONF")
     by_id = {s["id"]: s for s in scheds}
     table_rows = {}
     if tfails:
@@ -362,7 +370,9 @@ def run_family(tier, seed, binary=None):
     for tr, step, prop, clause in tfails:
         if prop != "CONF" and tr in table_rows:
             r = table_rows[tr]
-            failing.setdefault(tr, {"id": tr, "kind": "table", "rows": [{"id": r["id"], "kind": r["kind"], "segs": r["segs"], "inst": r["inst"]}]})
+            rows_ = [r] if r["kind"] == "path" else [x for x in table_rows.values() if x["kind"] == "esc"]
+            failing.setdefault(tr, {"id": tr, "kind": "table",
+                                    "rows": [{"id": x["id"], "kind": x["kind"], "segs": x["segs"], "inst": x["inst"]} for x in rows_]})
     allfails = [f for f in fails + tfails if f[2] != "CONF"]
     sample = None
     for tf in tfiles:
